@@ -37,8 +37,8 @@ TIE_THEOREMS = {"tables_ok_rydberg", "tables_ok_raman", "tables_ok_microwave", "
                 "device_tables_ok", "noise_tables_ok"}
 
 COUNTS = {  # objects per family
-    "quick": dict(channel=900, device=600, layout=1000, noise=1000, simconfig=800, register=1000, detmap=1000,
-                  config=800, results=1000),
+    "quick": dict(channel=800, device=500, layout=1000, noise=1000, simconfig=800, register=1000, detmap=1000,
+                  config=700, results=1000),
     "thorough": dict(channel=8000, device=6000, layout=10000, noise=10000, simconfig=6000, register=10000,
                      detmap=10000, config=8000, results=10000),
 }
